@@ -313,7 +313,7 @@ theorem closedT_namesFrame (env : Env) (hnp : NamesPlain env.reg) : ClosedT env 
     intro h
     rcases hk with hk | hk | hk | hk <;> rcases h with h | h <;> rw [hk] at h <;> exact absurd h (by decide)
   pxErr root scope n cls _ := fun _ => rfl
-  pxDir rec root scope n visiting st S isMod _ _ _ _ := by
+  pxDir fuel root scope n visiting st S isMod _ _ _ _ := by
     intro h
     rw [fieldOrder_rpc n.kw h, fold_io_dir]
     rfl
